@@ -304,7 +304,7 @@ PROPS = {
     ),
     'C11': dict(
         monitor=True,
-        streams=[dict(name='history', n_quick=1200, n_thorough=60000, nontrivial=_nt_pair, compare=_pair_compare, wf_check=False, race=True),
+        streams=[dict(name='history', n_quick=1200, n_thorough=40000, nontrivial=_nt_pair, compare=_pair_compare, wf_check=False, race=True),
                  chain_stream(2000, 50000, _nt_bound, name='regroup')],
         rule='stream history (run under the race detector): a chain without Memoize/Singleton (their process-wide caches are history by design, C09) is built once, '
              'one provider possibly standing behind a GenerateFromInjectionChain generator; two collections are derived from it (Sequence, Append); then a seeded '
